@@ -122,3 +122,23 @@ func (s *BadgerStore) VDbGetRepertoireKeys() ([]string, error) {
 
 // VInmem returns the cache layer of the BadgerStore.
 func (s *BadgerStore) VInmem() *InmemStore { return s.inmemStore }
+
+// VPeekEvent reads an event like Store.GetEvent without refreshing its position
+// in the in-memory LRU cache (an observer must not keep events from being
+// evicted). Stores of other types are read with GetEvent.
+func VPeekEvent(st Store, key string) (*Event, error) {
+	switch s := st.(type) {
+	case *InmemStore:
+		if res, ok := s.eventCache.Peek(key); ok {
+			return res.(*Event), nil
+		}
+		return s.GetEvent(key) // (not cached: the error the store gives)
+	case *BadgerStore:
+		if res, ok := s.inmemStore.eventCache.Peek(key); ok {
+			return res.(*Event), nil
+		}
+		ev, err := s.dbGetEvent(key)
+		return ev, mapError(err, "Event", key)
+	}
+	return st.GetEvent(key)
+}
